@@ -248,7 +248,7 @@ def stack_balance(rep: C.Report, prefix: str = "") -> None:
     """Ob1/Ob2: expand_stack balance on every syntactic path (also used by C05: a path that pops more than it pushed
     makes a later pop raise IndexError out of expand())."""
     ob1 = rep.add(C.Ob(prefix + "Ob1 expand_stack balance on every syntactic path", "E3 AST path encoder + z3", [], "all paths; no bound on input size; loops: per-iteration balance"))
-    ob2 = rep.add(C.Ob(prefix + "Ob2 call_lua_sandbox restores the saved depth", "E3 AST path encoder + z3", [], "all paths of call_lua_sandbox incl. exception edges into except/finally"))
+    ob2 = rep.add(C.Ob(prefix + "Ob2 call_lua_sandbox restores the saved depth", "E3 AST path encoder + z3", [], "all paths of call_lua_sandbox incl. exception edges into except/finally; the call into Lua may leave any number L >= 0 of extra entries (Python exceptions swallowed by Lua's pcall inside frame callbacks)"))
     t0 = time.time()
     unbalanced = []
     for fname in FILES:
@@ -269,7 +269,24 @@ def stack_balance(rep: C.Report, prefix: str = "") -> None:
                 ob.detail += f"{name}: not encodable ({', '.join(unsup)}); "
                 ob.__dict__["_bad"] = True
                 continue
-            enc = AP.Encoder(fn, ["depth"], _delta, restore=("depth", _is_len)).run()
+            leaks: list = []
+            delta_cb = _delta
+            if qual[-1] == "call_lua_sandbox":
+                # The Lua call re-enters Python through frame callbacks (preprocess, expandTemplate, extensionTag).  A Python
+                # exception raised inside a callback is swallowed by Lua's pcall while the entries pushed below it are still
+                # on the path: the call into Lua is NOT balanced.  It is modelled as leaving an arbitrary number L >= 0 of
+                # extra entries; only restoring the saved depth makes every returning path balanced.
+                def delta_cb(n, leaks=leaks):
+                    r = _delta(n)
+                    if r:
+                        return r
+                    if isinstance(n, ast.Call) and isinstance(n.func, ast.Attribute) and n.func.attr == "lua_invoke":
+                        L = z3.Int(f"left_by_lua_call_{n.lineno}")
+                        leaks.append(L)
+                        return {"depth": L}
+                    return None
+
+            enc = AP.Encoder(fn, ["depth"], delta_cb, restore=("depth", _is_len)).run()
             if enc.notes:
                 ob.detail += f"{name}: {enc.notes}; "
             for ex in enc.exits:
@@ -278,7 +295,7 @@ def stack_balance(rep: C.Report, prefix: str = "") -> None:
                 s.set("timeout", 20000)
                 s.set("random_seed", C.seed())
                 base = ex.base["depth"] if ex.base is not None else z3.IntVal(0)
-                s.add(ex.guard, ex.counters["depth"] != base)
+                s.add(ex.guard, ex.counters["depth"] != base, *[L >= 0 for L in leaks])
                 t = time.time()
                 r = str(s.check())
                 ob.solver_s += time.time() - t
